@@ -55,7 +55,7 @@ type c08case struct {
 
 // block kinds: e = empty block, q = proposed without new transactions, p = proposed with ordinary transactions,
 // k = proposed with a kill transaction (identity update at once), s = proposed with an online-status switch
-// (identity update at the next height divisible by 3)
+// (identity update at the next height divisible by 3), S = proposed with online-status switches of all four validator users
 
 const (
 	c08Validators = 4 // users 1..4 are Verified/Human and may go online
@@ -150,6 +150,10 @@ func (s *c08scen) produce(br *c08branch, kind string, other *c08branch) (c08blk,
 			i := 1 + r.Intn(c08Validators)
 			on := !lead.App.ValidatorsCache.IsOnlineIdentity(w.Addrs[i])
 			s.offer(br, i, chainfx.OnlineTx(on), other)
+		case "S":
+			for i := 1; i <= c08Validators; i++ {
+				s.offer(br, i, chainfx.OnlineTx(!lead.App.ValidatorsCache.IsOnlineIdentity(w.Addrs[i])), other)
+			}
 		}
 		var elig []*chainfx.Node
 		for _, n := range br.props {
@@ -203,55 +207,51 @@ func c08sign(k *ecdsa.PrivateKey, h *types.VoteHeader) *types.BlockCertSignature
 	return &types.BlockCertSignature{Signature: sig, TurnOffline: h.TurnOffline, Upgrade: h.Upgrade}
 }
 
-// mkCert builds a certificate of the given shape for blk (built on a state whose online validators are blk.preOnline).
-// Returned class: n (nil) | e (non-nil without signatures) | ok (quorum of distinct online validators, nothing else) |
-// bad (at least one signature, not acceptable).
-func (s *c08scen) mkCert(blk c08blk, shape string) (*types.BlockCert, string) {
+// mkCert builds a certificate of the given shape for blk.  The class is decided by a reference rule that does not
+// look at the code under test: n (nil) | e (non-nil without signatures) | ok (every signature is by an online
+// validator of the state the block was built on, over the right round / hash / parent, and the distinct signers
+// reach the quorum table) | bad (at least one signature, not acceptable).  `stale` = the online validators at the
+// fork point (shape "prevview": a quorum of the validator set the fork started from).
+func (s *c08scen) mkCert(blk c08blk, shape string, stale []common.Address) (*types.BlockCert, string) {
 	r := s.r
-	signers := append([]common.Address{}, blk.preOnline...)
-	if len(signers) == 0 {
-		signers = []common.Address{blk.god}
+	committee := append([]common.Address{}, blk.preOnline...)
+	if len(committee) == 0 {
+		committee = []common.Address{blk.god}
 	}
 	need := c08threshold(len(blk.preOnline))
+	signers := append([]common.Address{}, committee...)
 	r.Shuffle(len(signers), func(i, j int) { signers[i], signers[j] = signers[j], signers[i] })
 	step := []uint8{1, 2, 3, types.Final}[r.Intn(4)]
 	hdr := func() *types.VoteHeader {
 		return &types.VoteHeader{Round: blk.b.Height(), Step: step, ParentHash: blk.b.Header.ParentHash(), VotedHash: blk.b.Hash(),
 			TurnOffline: r.Intn(6) == 0, Upgrade: uint32(r.Intn(2))}
 	}
-	key := func(a common.Address) *ecdsa.PrivateKey { return s.w.Keys[s.w.Index(a)] }
 	cert := &types.BlockCert{Round: blk.b.Height(), Step: step, VotedHash: blk.b.Hash()}
+	var used []common.Address
+	hdrOK := true
 	add := func(a common.Address, h *types.VoteHeader) {
-		cert.Signatures = append(cert.Signatures, c08sign(key(a), h))
+		cert.Signatures = append(cert.Signatures, c08sign(s.w.Keys[s.w.Index(a)], h))
+		used = append(used, a)
 	}
-	cls := func(c *types.BlockCert, want string) (*types.BlockCert, string) {
-		if len(c.Signatures) == 0 {
-			return c, "e"
-		}
-		return c, want
-	}
+	foreign := false
 	switch shape {
 	case "nil":
 		return nil, "n"
 	case "empty":
 		return &types.BlockCert{}, "e"
 	case "emptyhdr":
-		return cert, "e"
 	case "valid":
 		for _, a := range signers {
 			add(a, hdr())
 		}
-		return cls(cert, "ok")
 	case "min":
 		for _, a := range signers[:need] {
 			add(a, hdr())
 		}
-		return cls(cert, "ok")
 	case "under":
 		for _, a := range signers[:need-1] {
 			add(a, hdr())
 		}
-		return cls(cert, "bad")
 	case "dupsig":
 		for _, a := range signers[:need-1] {
 			add(a, hdr())
@@ -259,44 +259,70 @@ func (s *c08scen) mkCert(blk c08blk, shape string) (*types.BlockCert, string) {
 		if len(cert.Signatures) > 0 {
 			cert.Signatures = append(cert.Signatures, cert.Signatures[0])
 		}
-		return cls(cert, "bad")
 	case "forged":
 		for _, a := range signers[:need] {
 			add(a, hdr())
 		}
 		cert.Signatures = append(cert.Signatures, c08sign(s.outsider, hdr()))
+		foreign = true
 		r.Shuffle(len(cert.Signatures), func(i, j int) { cert.Signatures[i], cert.Signatures[j] = cert.Signatures[j], cert.Signatures[i] })
-		return cert, "bad"
 	case "outsider":
 		for i := 0; i < need; i++ {
 			cert.Signatures = append(cert.Signatures, c08sign(chainfx.DetKey(s.cs.Seed, 900+i), hdr()))
 		}
-		return cert, "bad"
+		foreign = true
+	case "prevview":
+		st := append([]common.Address{}, stale...)
+		if len(st) == 0 {
+			st = []common.Address{blk.god}
+		}
+		for _, a := range st {
+			add(a, hdr())
+		}
 	case "round":
 		cert.Round++
+		hdrOK = false
 		for _, a := range signers {
 			h := hdr()
 			h.Round++
 			add(a, h)
 		}
-		return cert, "bad"
 	case "hash":
 		cert.VotedHash[3] ^= 0x10
+		hdrOK = false
 		for _, a := range signers {
 			h := hdr()
 			h.VotedHash = cert.VotedHash
 			add(a, h)
 		}
-		return cert, "bad"
 	case "parent":
+		hdrOK = false
 		for _, a := range signers {
 			h := hdr()
 			h.ParentHash[5] ^= 1
 			add(a, h)
 		}
-		return cert, "bad"
+	default:
+		panic("unknown cert shape " + shape)
 	}
-	panic("unknown cert shape " + shape)
+	if len(cert.Signatures) == 0 {
+		return cert, "e"
+	}
+	distinct := map[common.Address]bool{}
+	for _, a := range used {
+		in := false
+		for _, c := range committee {
+			in = in || c == a
+		}
+		if !in {
+			foreign = true
+		}
+		distinct[a] = true
+	}
+	if hdrOK && !foreign && len(distinct) >= need {
+		return cert, "ok"
+	}
+	return cert, "bad"
 }
 
 func c08cloneCert(c *types.BlockCert) *types.BlockCert {
@@ -408,10 +434,12 @@ func c08tamper(b *types.Block, kind string) *types.Block {
 			nb.Header.ProposedHeader.Flags ^= types.IdentityUpdate
 		}
 	case "time":
+		// a timestamp before the parent's (a merely shifted timestamp that keeps the minimal delay is still a valid block:
+		// headers carry no proposer signature)
 		if nb.IsEmpty() {
-			nb.Header.EmptyBlockHeader.Time -= 15
+			nb.Header.EmptyBlockHeader.Time = 1000
 		} else {
-			nb.Header.ProposedHeader.Time -= 15
+			nb.Header.ProposedHeader.Time = 1000
 		}
 	case "idroot":
 		if nb.IsEmpty() {
@@ -445,7 +473,7 @@ func (s *c08scen) peerAnswer() []c08item {
 			blk.b = c08tamper(f.b, cs.TamperKind)
 			valid = false
 		}
-		cert, cls := s.mkCert(blk, shape)
+		cert, cls := s.mkCert(blk, shape, s.fork[0].preOnline)
 		items = append(items, c08item{bundle: types.BlockBundle{Block: blk.b, Cert: c08cloneCert(cert)}, cls: cls, valid: valid})
 	}
 	n := len(items)
@@ -479,7 +507,7 @@ func (s *c08scen) peerAnswer() []c08item {
 		k := 1 + arg%len(s.prefix)
 		var pre []c08item
 		for _, p := range s.prefix[len(s.prefix)-k:] {
-			cert, cls := s.mkCert(p, "valid")
+			cert, cls := s.mkCert(p, "valid", nil)
 			pre = append(pre, c08item{bundle: types.BlockBundle{Block: p.b, Cert: c08cloneCert(cert)}, cls: cls, valid: true})
 		}
 		items = append(pre, items...)
@@ -737,6 +765,16 @@ func c08run(c *hx.Ctx, cs c08case, emit bool) (*c08result, error) {
 		}
 		hit("ValidateSubChain:" + vsc)
 	}
+	// (only for a common ancestor well inside the window of 100 saved versions: outside of it a refusal is right)
+	if vsc == "err" && cs.Tamper < 0 && (cs.List == "ok" || cs.List == "shuffled" || cs.List == "known") && len(cs.Own)+cs.Prefix < 99 {
+		allOK := len(items) > 0
+		for _, it := range items {
+			allOK = allOK && it.cls == "ok" && it.valid
+		}
+		if allOK {
+			bad("C08:honest-fork-refused", "ValidateSubChain refused a fork that a clean follower accepted block by block and whose every block carries a quorum certificate of its parent state's online validators: "+strings.SplitN(d, "\n", 2)[0])
+		}
+	}
 	proc, d := c08guard(func() error { return resolver.VerifProcessBlocks(bundles()) })
 	if proc == "panic" {
 		bad("C08:fork-resolver-panic", "processBlocks: "+d)
@@ -754,10 +792,20 @@ func c08run(c *hx.Ctx, cs c08case, emit bool) (*c08result, error) {
 	// ---- oracle: what must be refused (decided from how the case was constructed, not from the code or the model)
 	if loaded {
 		tipIdx := -1
-		structural := cs.List == "gap" && len(s.fork) >= 3 || cs.List == "dup" || cs.List == "dropfirst" && len(s.fork) >= 2 ||
-			cs.List == "height0" || cs.List == "height0tip" || cs.List == "far" || cs.List == "none"
+		// is the (sorted) answer a chain on top of one of the node's canonical blocks? (decided from the headers alone)
+		ref := bundles()
+		sort.SliceStable(ref, func(i, j int) bool { return ref[i].Block.Height() < ref[j].Block.Height() })
+		structural := len(ref) == 0
+		for i, b := range ref {
+			if i == 0 {
+				anc := A.Chain.GetBlockHeaderByHeight(b.Block.Height() - 1)
+				structural = structural || b.Block.Height() == 0 || anc == nil || anc.Hash() != b.Block.Header.ParentHash()
+			} else {
+				structural = structural || b.Block.Height() != ref[i-1].Block.Height()+1 || b.Block.Header.ParentHash() != ref[i-1].Block.Hash()
+			}
+		}
 		if structural {
-			bad("C08:invalid-fork-accepted:list-"+cs.List, "a block list that is not a chain on top of a common ancestor was found applicable")
+			bad("C08:invalid-fork-accepted:not-a-chain", "a block list (mode "+cs.List+") that is not a chain on top of a canonical block of the node was found applicable")
 		}
 		for i, it := range items {
 			if tipIdx < 0 || it.bundle.Block.Height() >= items[tipIdx].bundle.Block.Height() {
@@ -777,7 +825,11 @@ func c08run(c *hx.Ctx, cs c08case, emit bool) (*c08result, error) {
 			case "e":
 				bad("C08:fork-accepted-with-empty-tip-cert", "the last fork block carries an empty (non-nil) certificate")
 			case "bad":
-				bad("C08:fork-accepted-with-invalid-tip-cert", fmt.Sprintf("the last fork block carries an unacceptable certificate (shape %s)", cs.Certs[len(cs.Certs)-1]))
+				sig := "C08:fork-accepted-with-invalid-tip-cert"
+				if cs.Certs[len(cs.Certs)-1] == "prevview" {
+					sig += ":stale-validator-view"
+				}
+				bad(sig, fmt.Sprintf("the last fork block carries a certificate (shape %s) that is not a quorum of the online validators of its parent state", cs.Certs[len(cs.Certs)-1]))
 			}
 		}
 	}
@@ -863,6 +915,10 @@ func c08run(c *hx.Ctx, cs c08case, emit bool) (*c08result, error) {
 				}
 				if h > commonH || h == base {
 					line(fmt.Sprintf("canon %d", h), ans)
+				}
+				if A.Chain.FxRepo().ReadCanonicalHash(h) != C.Chain.FxRepo().ReadCanonicalHash(h) {
+					bad("C08:adoption-differs:canonical", fmt.Sprintf("stored canonical hash at height %d differs from the follower (%s vs %s)", h,
+						A.Chain.FxRepo().ReadCanonicalHash(h).Hex(), C.Chain.FxRepo().ReadCanonicalHash(h).Hex()))
 				}
 				if (ha == nil) != (hc == nil) || ha != nil && ha.Hash() != hc.Hash() {
 					bad("C08:adoption-differs:canonical", fmt.Sprintf("canonical block at height %d differs from the follower", h))
@@ -974,7 +1030,7 @@ func c08run(c *hx.Ctx, cs c08case, emit bool) (*c08result, error) {
 	return fail, nil
 }
 
-var c08shapes = []string{"nil", "empty", "emptyhdr", "valid", "min", "under", "dupsig", "forged", "outsider", "round", "hash", "parent"}
+var c08shapes = []string{"nil", "empty", "emptyhdr", "valid", "min", "under", "dupsig", "forged", "outsider", "prevview", "round", "hash", "parent"}
 
 func c08gen(r *rand.Rand, i int) c08case {
 	cs := c08case{Seed: r.Int63n(1 << 40), Online: 1 + r.Intn(5), Prefix: 1 + r.Intn(8), Tamper: -1, List: "ok", Share: r.Intn(3) == 0}
@@ -1012,12 +1068,59 @@ func c08gen(r *rand.Rand, i int) c08case {
 		cs.Certs = append(cs.Certs, []string{"nil", "empty", "valid", "valid", "min", "valid"}[r.Intn(6)])
 	}
 	cs.Certs[nFork-1] = []string{"valid", "min"}[r.Intn(2)]
-	switch i % 8 {
+	switch i % 11 {
+	case 10: // common ancestor at the edge of the retained window (100 saved versions): 98..101 empty own blocks
+		nOwn := 98 + r.Intn(4)
+		cs.Own = nil
+		for j := 0; j < nOwn; j++ {
+			cs.Own = append(cs.Own, "e")
+		}
+		if len(cs.Fork) > 3 {
+			cs.Fork, cs.Certs = cs.Fork[:3], cs.Certs[:3]
+		}
+		for j := range cs.Certs {
+			cs.Certs[j] = "valid"
+		}
+		cs.Share = false
+	case 8, 9: // the validator set changes inside the fork (all four validator users switch), blocks follow the switch
+		cs.Online = []int{1, 5}[r.Intn(2)]
+		if cs.Prefix < 4 {
+			cs.Prefix += 4
+		}
+		cs.Share = false
+		j := 0
+		for (cs.Prefix+2+j)%3 != 0 { // genesis has height 1: fork block j has height prefix+2+j
+			j++
+		}
+		cs.Fork = []string{"S"}
+		for k := 0; k < j; k++ {
+			cs.Fork = append(cs.Fork, "q")
+		}
+		for k, n := 0, 1+r.Intn(3); k < n; k++ {
+			cs.Fork = append(cs.Fork, []string{"e", "q", "p"}[r.Intn(3)])
+		}
+		cs.Certs = nil
+		for range cs.Fork {
+			cs.Certs = append(cs.Certs, []string{"valid", "min"}[r.Intn(2)])
+		}
+		if i%11 == 8 { // a tip certificate by a quorum of the validator set the fork started from
+			cs.Certs[len(cs.Certs)-1] = "prevview"
+		}
 	case 0: // honest: everything certified (identity-update blocks need it)
 		for j := range cs.Certs {
 			if cs.Certs[j] == "nil" || cs.Certs[j] == "empty" {
 				cs.Certs[j] = "valid"
 			}
+		}
+		if (i/11)%2 == 1 { // shorter but heavier fork: the own branch is longer and made of empty blocks (weight rule + seed decide)
+			cs.Own = nil
+			for j, n := 0, nFork+1+r.Intn(2); j < n; j++ {
+				cs.Own = append(cs.Own, "e")
+			}
+			if cs.Fork[0] == "e" {
+				cs.Fork[0] = "q"
+			}
+			cs.Share = false
 		}
 	case 1: // honest with uncertified middle blocks where allowed: identity updates are excluded from the fork
 		for j, k := range cs.Fork {
@@ -1025,14 +1128,31 @@ func c08gen(r *rand.Rand, i int) c08case {
 				cs.Fork[j] = "p"
 			}
 		}
-	case 2: // defective tip certificate
-		cs.Certs[nFork-1] = c08shapes[r.Intn(len(c08shapes))]
+	case 2: // defective tip certificate: every shape in turn
+		cs.Certs[nFork-1] = c08shapes[(i/11)%len(c08shapes)]
 	case 3: // defective certificate somewhere
-		cs.Certs[r.Intn(nFork)] = c08shapes[r.Intn(len(c08shapes))]
-	case 4: // tampered block
-		cs.Tamper, cs.TamperKind = r.Intn(nFork), []string{"root", "droptx", "flags", "time", "idroot"}[r.Intn(5)]
-	case 5: // hostile list
-		cs.List, cs.ListArg = []string{"gap", "dup", "dropfirst", "height0", "height0tip", "far", "none", "shuffled"}[r.Intn(8)], r.Intn(1000)
+		cs.Certs[r.Intn(nFork)] = c08shapes[(i/11+r.Intn(2))%len(c08shapes)]
+	case 4: // tampered block: every operator in turn, first / middle / last block
+		kinds := []string{"root", "droptx", "flags", "time", "idroot"}
+		cs.TamperKind = kinds[(i/11)%len(kinds)]
+		cs.Tamper = []int{0, nFork / 2, nFork - 1}[(i/55)%3]
+	case 5: // hostile list: every mode in turn, with the tip above and not above the own head
+		modes := []string{"gap-low", "height0", "dup-low", "gap", "dup", "dropfirst", "height0tip", "far", "none", "shuffled", "dropfirst-low"}
+		m := modes[(i/11)%len(modes)]
+		cs.ListArg = r.Intn(1000)
+		if strings.HasSuffix(m, "-low") {
+			m = strings.TrimSuffix(m, "-low")
+			if nFork < 3 {
+				add := kinds(3-nFork, false)
+				cs.Fork = append(cs.Fork, add...)
+				for range add {
+					cs.Certs = append(cs.Certs, "valid")
+				}
+				nFork = 3
+			}
+			cs.Own = kinds(nFork+r.Intn(3), false)
+		}
+		cs.List = m
 	case 6: // answer of the real peer code / answer starting below the common ancestor
 		cs.List, cs.ListArg = []string{"peer", "known", "shuffled"}[r.Intn(3)], r.Intn(1000)
 		for j := range cs.Certs {
@@ -1068,6 +1188,36 @@ func c08shrink(c *hx.Ctx, cs c08case, sig string) c08case {
 			cand := cs
 			cand.Fork = append([]string{}, cs.Fork[:len(cs.Fork)-1]...)
 			cand.Certs = append(append([]string{}, cs.Certs[:len(cs.Certs)-2]...), cs.Certs[len(cs.Certs)-1])
+			if try(cand) {
+				cs, changed = cand, true
+				continue
+			}
+		}
+		for j := 0; j+1 < len(cs.Fork) && !changed; j++ {
+			if cs.Tamper >= 0 {
+				break
+			}
+			cand := cs
+			cand.Fork = append(append([]string{}, cs.Fork[:j]...), cs.Fork[j+1:]...)
+			cand.Certs = append(append([]string{}, cs.Certs[:j]...), cs.Certs[j+1:]...)
+			if try(cand) {
+				cs, changed = cand, true
+			}
+		}
+		if changed {
+			continue
+		}
+		if cs.List != "ok" {
+			cand := cs
+			cand.List, cand.ListArg = "ok", 0
+			if try(cand) {
+				cs, changed = cand, true
+				continue
+			}
+		}
+		if cs.Share {
+			cand := cs
+			cand.Share = false
 			if try(cand) {
 				cs, changed = cand, true
 				continue
@@ -1141,16 +1291,20 @@ func init() {
 			}
 			return runOne(wrap.Replay)
 		}
-		c.Rep.Rule = "three real replica groups over one genesis (observed node A, fork branch B, clean follower C; 11 identities, 1-5 online validators, two proposer keys); common prefix 1-11, own branch 0-6, fork 1-20 blocks of kinds empty / proposed / with transactions / kill transaction (identity update) / online switch; per fork block one of 12 certificate shapes signed with the real validator keys; 8 case families: fully certified, uncertified middle blocks, defective tip certificate, defective certificate anywhere, tampered block (5 operators), hostile lists (gap, duplicate, first block dropped, height 0, height 0 + tip, far future, none, shuffled), real peer answer (GetTopBlockHashes -> ReadBlockForForkedPeer) / answer starting below the ancestor, all certificates random; distinct = distinct (shape) cases; non-trivial = the real processBlocks was reached with a non-empty list"
-		n := c.Scale(64, 3000)
+		c.Rep.Rule = "three real replica groups over one genesis (observed node A, fork branch B, clean follower C; 11 identities, 1-5 online validators, two proposer keys); common prefix 1-11, own branch 0-6, fork 1-20 blocks of kinds empty / proposed / with transactions / kill transaction (identity update) / online switch; per fork block one of 12 certificate shapes signed with the real validator keys; 11 case families (i mod 11): fully certified, uncertified middle blocks, defective tip certificate, defective certificate anywhere, tampered block (5 operators), hostile lists (gap, duplicate, first block dropped, height 0, height 0 + tip, far future, none, shuffled), real peer answer (GetTopBlockHashes -> ReadBlockForForkedPeer) / answer starting below the ancestor, all certificates random, validator set switched inside the fork with a tip certificate by the old quorum / by the new one, common ancestor at the edge of the 100-version window; distinct = distinct (shape) cases; non-trivial = the real processBlocks was reached with a non-empty list"
+		n := c.Scale(165, 3300)
 		for i := 0; i < n; i++ {
 			cs := c08gen(c.Rng, i)
 			if c.Distinct(c08key(cs)) {
 				c.Rep.Distinct++
 			}
 			c.Sample(cs)
+			t0 := time.Now()
 			if err := runOne(cs); err != nil {
 				return err
+			}
+			if os.Getenv("C08_DEBUG") != "" {
+				fmt.Fprintf(os.Stderr, "TIME %d %.2fs %s\n", i, time.Since(t0).Seconds(), c08key(cs))
 			}
 			if len(c.Rep.Failures) >= 3 {
 				break
